@@ -967,7 +967,40 @@ func qlist(xs []string) string {
 func srcText(n ast.Node) string {
 	var b bytes.Buffer
 	printer.Fprint(&b, token.NewFileSet(), n)
-	return strings.Join(strings.Fields(b.String()), " ")
+	return normSpace(b.String())
+}
+
+// normSpace collapses runs of white space to one blank, but not inside string, rune or raw-string literals
+func normSpace(s string) string {
+	var o strings.Builder
+	var quote byte
+	pendingSpace := false
+	for i := 0; i < len(s); i++ {
+		c := s[i]
+		if quote != 0 {
+			o.WriteByte(c)
+			if c == '\\' && quote != '`' && i+1 < len(s) {
+				i++
+				o.WriteByte(s[i])
+			} else if c == quote {
+				quote = 0
+			}
+			continue
+		}
+		if c == ' ' || c == '\t' || c == '\n' || c == '\r' {
+			pendingSpace = true
+			continue
+		}
+		if pendingSpace && o.Len() > 0 {
+			o.WriteByte(' ')
+		}
+		pendingSpace = false
+		o.WriteByte(c)
+		if c == '"' || c == '\'' || c == '`' {
+			quote = c
+		}
+	}
+	return o.String()
 }
 
 // resolverSites lists every call that tells the PathResolver something or asks it for a path,
@@ -1348,6 +1381,35 @@ func funcFlowRows(repo, rel, recv, name string) []string {
 	return rows
 }
 
+// flowsOf emits the statement lists of several functions as one definition
+func flowsOf(repo, leanName, doc string, fns [][3]string) {
+	var defs []string
+	for _, fn := range fns {
+		rows := funcFlowRows(repo, fn[0], fn[1], fn[2])
+		nm := fn[2]
+		if fn[1] != "" {
+			nm = fn[1] + "." + fn[2]
+		}
+		defs = append(defs, fmt.Sprintf("  (%s, [\n  %s])", q(nm), strings.Join(rows, ",\n  ")))
+	}
+	fmt.Fprintf(&out, "/-- %s: (Type.method, every statement in source order as (kind, text, branch path)) -/\n", doc)
+	fmt.Fprintf(&out, "def %s : List (String × List (String × String × List (String × String))) := [\n%s]\n\n", leanName, strings.Join(defs, ",\n"))
+}
+
+func otherFlows(repo string) {
+	rf := "git/ref_filter.go"
+	flowsOf(repo, "filterFlows", "the reference filter combinators of git/ref_filter.go", [][3]string{
+		{rf, "inverse", "Filter"}, {rf, "intersection", "Filter"}, {rf, "union", "Filter"}, {rf, "include", "Combine"}, {rf, "exclude", "Combine"},
+		{rf, "allReferencesFilter", "Filter"}, {rf, "noReferencesFilter", "Filter"}, {rf, "", "PrefixFilter"}, {rf, "", "RegexpFilter"}, {rf, "regexpFilter", "Filter"}})
+	rg := "internal/refopts/ref_group.go"
+	flowsOf(repo, "groupFlows", "refGroup.collectSymbols and augmentFromConfig of internal/refopts/ref_group.go", [][3]string{
+		{rg, "refGroup", "collectSymbols"}, {rg, "refGroup", "augmentFromConfig"}})
+	flowsOf(repo, "footnoteFlows", "sizes/footnotes.go", [][3]string{
+		{"sizes/footnotes.go", "Footnotes", "CreateCitation"}, {"sizes/footnotes.go", "Footnotes", "String"}})
+	flowsOf(repo, "meterFlows", "the progress meter of meter/meter.go", [][3]string{
+		{"meter/meter.go", "progressMeter", "Start"}, {"meter/meter.go", "progressMeter", "Inc"}, {"meter/meter.go", "progressMeter", "Add"}, {"meter/meter.go", "progressMeter", "Done"}})
+}
+
 // graphFlows: the statement lists of the aggregator core of sizes/graph.go, one per function
 func graphFlows(repo string) {
 	fns := [][2]string{{"Graph", "RegisterBlob"}, {"Graph", "RegisterTree"}, {"treeRecord", "initialize"}, {"treeRecord", "maybeFinalize"},
@@ -1388,6 +1450,7 @@ func main() {
 	resolverSites(repo)
 	mainFlow(repo)
 	graphFlows(repo)
+	otherFlows(repo)
 	funcFlow(repo, "sizes/graph.go", "", "ScanRepositoryUsingGraph", "scanFlow", "sizes.ScanRepositoryUsingGraph, EVERY statement in source order: (kind, text, branch path)")
 	out.WriteString("end Gen.Cmds\n")
 	if err := os.WriteFile(filepath.Join(outdir, "Cmds.lean"), []byte(out.String()), 0o644); err != nil {
